@@ -28,6 +28,7 @@ ASSUMPTIONS = [
 ]
 EXHAUSTIVE = {'quick': False, 'thorough': True}
 PYOPT_KINDS = ('random',)
+CLOCALE_KINDS = ('random',)
 SECTIONS = ('lua', 'gfx', 'gff', 'map', 'sfx', 'music')
 CHOICES = ('none', 'p8', 'png', 'empty')
 OUT_STATES = ('absent', 'p8', 'p8label', 'png', 'p8blacklabel')
